@@ -84,6 +84,19 @@ claim("C02", "exploration",
       "Trusted: the projection contains all protocol state that matters (round bound is the backstop); timer steps wait 3 ms of real time; virtual time advances 1 s per round.",
       "DESIGN.md section 2, C02")
 
+claim("C08", "exploration",
+      "model-based (stateful) property-based testing: generated histories of arrivals (values / disposes, several instances and writers, out-of-order sequence numbers) and every access call of the public DataReader API against a reference model of DDS 1.4 2.2.2.5.1",
+      "A reference model (instances with state, disposed generation count, per-sample generation snapshot / read flag / taken flag, History eviction) written from the DDS text predicts for every generated call (read, take, *_next_sample, read/take_instance This/Next with present, absent and unknown keys, four iterators; conditions any / not_read; max 0,1,2,all) "
+      "the number of returned samples, that each is selected by the condition, per-writer sequence order, sample_state, instance_state, generation counts, view_state of the most recent sample of each instance, take-at-most-once, read never removing, and the History depth bound.",
+      "Trusted: the model in incrate/c08_readtake.rs with the readings documented in the evidence assumptions (KeepLast counts taken changes as recent; 'most recent' is by reception time; view state asserted where two readings of the spec agree). Changes are placed in the topic cache as the RTPS Reader does.",
+      "DESIGN.md section 2, C08")
+claim("C09", "exploration",
+      "property-based testing over queues of good/unintelligible changes x every read/take form (sync, iterator, async streams; with_key and no_key), with a deterministic loop-iteration budget per call and an exact delivery oracle; plus the same through DATA submessages into the real RTPS Reader",
+      "Generated queues (each position good or one of 6 unintelligible kinds, 1-2 writers, reliable / best-effort) are drained through each of 12 API forms. Each call must return within 200+20*len iterations of the instrumented take loop; the outcomes must contain every good change exactly once in order, no fabricated sample, at most one error per reportable bad change, and never 'empty' / Pending while a good change is deliverable. "
+      "Scenario 1 sends the queue as DATA submessages through MessageReceiver and a reliable Reader, including DATA that cannot become a change at all.",
+      "Trusted: the tick point in try_take_one_with is the bounded-time signal (120 s watchdog as backstop). Async streams are polled directly with a counting waker.",
+      "DESIGN.md section 2, C09")
+
 NOT_YET = {
 }
 
